@@ -52,6 +52,7 @@ func checkC11(r *Run) {
 	r.Rule("C11.R5.clusterkey", "cluster.Open hands pledge.Arbitrate a configuration whose ClusterKey was assigned from the cluster's key on every path; a joining node adopts the ClusterKey of the pledge response", 3)
 	r.Rule("C11.ERR", "no error returned by a call is discarded in the pledge and cluster-open code except the tabled sites (a swallowed juror or arbitration error admits a node without its quorum)", 1)
 	r.Rule("C11.R6.search", "a binary search is applied only to slices that are kept ordered (inserted at the found position or sorted after appending); juror.approvals is append-only, so membership must be tested linearly", 1)
+	r.Rule("C11.R7.verdict", "juror.verdict approves (returns a nil error) only across the edge on which the key is not among its earlier approvals and the edge on which the key is above every key it knows: weakening either test lets one juror approve the same key for two pledges, or a key a member already holds", 2)
 	r.Rule("C11.R3.failures", "consultQuorum asks every quorum member, each goroutine returns the Send error unchanged, and the result is wg.Wait()", 3)
 	r.Rule("C11.R4.monotone", "responsible._proposedKey is assigned only in idToPropose, by highestNodeID(snapshot)+1 or by ++", 2)
 
@@ -179,6 +180,7 @@ func checkC11(r *Run) {
 		return fn.InPkgs("aspen/internal/cluster/pledge") || (fn.InPkgs("aspen/internal/cluster") && !fn.InPkgs("aspen/internal/cluster/gossip", "aspen/internal/cluster/store"))
 	}, 40)
 	checkConsultQuorum(r, p)
+	checkVerdictGuards(r, p)
 
 	// ---- R4
 	pk := p.FieldOf(pledgePkg, "responsible", "_proposedKey")
@@ -812,4 +814,132 @@ func checkSortedSearch(r *Run, p *Prog) {
 		})
 	}
 	r.Ob("C11.R6.search", "binary searches in the cluster packages run on ordered slices", "", true, fmt.Sprintf("%d binary search call(s) examined", n))
+}
+
+// checkVerdictGuards decides C11.R7.
+func checkVerdictGuards(r *Run, p *Prog) {
+	fn := p.Func(pledgePkg, "juror", "verdict")
+	approvals := p.FieldOf(pledgePkg, "juror", "approvals")
+	if fn == nil || approvals == nil {
+		r.Undecide("C11.R7: juror.verdict / juror.approvals not found")
+		return
+	}
+	c := p.CFG(fn)
+	req := paramObj(fn, 1)
+	isReqKey := func(e ast.Expr) bool {
+		f, ok := isFieldOfObj(fn, e, req)
+		return ok && f == "Key"
+	}
+	notApproved := c.EdgesEstablishing(func(atom ast.Expr, val bool) bool {
+		call, ok := ast.Unparen(atom).(*ast.CallExpr)
+		if !ok || val || len(call.Args) != 2 {
+			return false
+		}
+		f := CalleeFunc(fn, call)
+		if f == nil || f.Name() != "Contains" {
+			return false
+		}
+		sel, ok := ast.Unparen(call.Args[0]).(*ast.SelectorExpr)
+		return ok && fieldVar(fn, sel) == approvals && isReqKey(call.Args[1])
+	})
+	above := c.EdgesEstablishing(func(atom ast.Expr, val bool) bool {
+		be, ok := ast.Unparen(atom).(*ast.BinaryExpr)
+		if !ok {
+			return false
+		}
+		highest := func(e ast.Expr) bool {
+			call, ok := ast.Unparen(e).(*ast.CallExpr)
+			if !ok {
+				return false
+			}
+			f := CalleeFunc(fn, call)
+			return f != nil && f.Name() == "highestNodeID"
+		}
+		switch {
+		case isReqKey(be.X) && highest(be.Y):
+			return (be.Op == token.LEQ && !val) || (be.Op == token.GTR && val)
+		case highest(be.X) && isReqKey(be.Y):
+			return (be.Op == token.GEQ && !val) || (be.Op == token.LSS && val)
+		}
+		return false
+	})
+	var errRes types.Object
+	if res := fn.Type.Results; res != nil && len(res.List) == 1 && len(res.List[0].Names) == 1 {
+		errRes = fn.Pkg.TypesInfo.Defs[res.List[0].Names[0]]
+	}
+	for _, g := range []struct {
+		name  string
+		edges map[edge]bool
+	}{{"the key is not among the juror's earlier approvals", notApproved}, {"the key is above every key the juror knows", above}} {
+		var path []string
+		if len(g.edges) > 0 {
+			path = verdictSearchAvoiding(c, fn, errRes, g.edges)
+		}
+		r.ObPath("C11.R7.verdict", "juror.verdict approves only when "+g.name, p.Position(fn.Pos()), len(g.edges) > 0 && path == nil,
+			"an approval is reachable without this test having come out in the proposal's favour", path)
+	}
+}
+
+// verdictSearchAvoiding: is a nil-error return of fn reachable from entry without crossing
+// one of the edges, tracking whether the named result was given a certain error?
+func verdictSearchAvoiding(c *FuncCFG, fn *FuncNode, errRes types.Object, avoid map[edge]bool) []string {
+	type st struct {
+		pt       Point
+		rejected bool
+	}
+	seen := map[st]bool{}
+	parent := map[st]st{}
+	start := st{c.Entry(), false}
+	seen[start] = true
+	work := []st{start}
+	for len(work) > 0 {
+		cur := work[len(work)-1]
+		work = work[:len(work)-1]
+		b, idx, rej := cur.pt.B, cur.pt.I, cur.rejected
+		if idx >= 0 && idx < len(b.Nodes) {
+			switch v := b.Nodes[idx].(type) {
+			case *ast.AssignStmt:
+				for i, l := range v.Lhs {
+					if errRes != nil && objOf(fn, l) == errRes && len(v.Lhs) == len(v.Rhs) {
+						rej = certainErr(fn, v.Rhs[i], v)
+					}
+				}
+			case *ast.ReturnStmt:
+				success := false
+				if len(v.Results) == 0 {
+					success = !rej
+				} else {
+					success = mayReturnNilError(fn, v)
+				}
+				if success {
+					var out []string
+					for x, ok := cur, true; ok && len(out) < 30; x, ok = parent[x] {
+						if x.pt.I >= 0 && x.pt.I < len(x.pt.B.Nodes) {
+							out = append([]string{c.P.Position(x.pt.B.Nodes[x.pt.I].Pos())}, out...)
+						}
+					}
+					return out
+				}
+				continue
+			}
+		}
+		push := func(to st) {
+			if !seen[to] {
+				seen[to] = true
+				parent[to] = cur
+				work = append(work, to)
+			}
+		}
+		if idx+1 < len(b.Nodes) {
+			push(st{Point{b, idx + 1}, rej})
+			continue
+		}
+		for si, succ := range b.Succs {
+			if avoid[edge{b, si}] {
+				continue
+			}
+			push(st{Point{succ, -1}, rej})
+		}
+	}
+	return nil
 }
